@@ -325,6 +325,41 @@ RangeScan(tr, start, end) ==
            search == SubSeq(start, 1, idx)
        IN  ScanLoop(<<[nd |-> tr, d |-> 0]>>, 0, <<>>, start, end, search)
 
+(* rangeScan as the COLLATION tree uses it: subtrees are pruned with the common prefix of the two bounds' SORT   *)
+(* keys, but a leaf is kept or the scan stopped by comparing ORIGINAL strings bytewise (OT: rank -> original).    *)
+(* The result has no meaning in terms of the ordered map (C03 carves it out); it is specified here as what it is *)
+(* - "the leaves in collation order from the unpruned subtrees, skipping those whose original string is bytewise *)
+(* below the start, up to the first one bytewise above the end" - and compared with the real tree as drift.      *)
+RECURSIVE ScanLoopC(_, _, _, _, _, _)
+ScanLoopC(stack, acc, start, end, search, OT) ==
+  IF stack = <<>> THEN acc
+  ELSE LET e    == stack[Len(stack)]
+           nd   == e.nd
+           rest == SubSeq(stack, 1, Len(stack) - 1)
+       IN  IF nd.kind = "leaf"
+           THEN IF LexLess(OT[nd.k], start) THEN ScanLoopC(rest, acc, start, end, search, OT)
+                ELSE IF LexLess(end, OT[nd.k]) THEN acc
+                ELSE ScanLoopC(rest, Append(acc, nd.k), start, end, search, OT)
+           ELSE LET cmp   == SubSeq(search, e.d + 1, e.d + Min2(Len(search) - e.d, InlineMax))
+                    prune == nd.plen > 0 /\ e.d < Len(search) /\ LCP0(nd.pfx, cmp) = 0
+                    cd    == e.d + nd.plen + 1
+                    kids  == [i \in 1..Len(nd.ch) |-> [nd |-> nd.ch[Len(nd.ch) + 1 - i], d |-> cd]]
+                IN  IF prune THEN ScanLoopC(rest, acc, start, end, search, OT)
+                    ELSE ScanLoopC(rest \o kids, acc, start, end, search, OT)
+
+(* the wrapper: an empty end bound means the largest stored key; bounds are swapped by the BYTE order of the originals *)
+RangeCollation(tr, aO, aT, bO, bT, OT) ==
+  IF tr.kind = "empty" THEN <<>>
+  ELSE LET open == Len(bO) = 0
+           eO   == IF open THEN OT[MaxLeaf(tr).k] ELSE bO
+           eT   == IF open THEN MaxLeaf(tr).tk ELSE bT
+           sw   == LexLess(eO, aO)
+           sO   == IF sw THEN eO ELSE aO
+           hO   == IF sw THEN aO ELSE eO
+           sT   == IF sw THEN eT ELSE aT
+           hT   == IF sw THEN aT ELSE eT
+       IN  ScanLoopC(<<[nd |-> tr, d |-> 0]>>, <<>>, sO, hO, SubSeq(sT, 1, LCP0(sT, hT)), OT)
+
 (* the Range wrappers; b = 0 is the empty end bound of byte-string trees *)
 AlphaT(o) == o \o <<0>>
 
@@ -336,6 +371,8 @@ RangeL1(tr, a, b) ==
                    ELSE O(b)
              sw == LexLess(e0, s0)
          IN  RangeScan(tr, AlphaT(IF sw THEN e0 ELSE s0), AlphaT(IF sw THEN s0 ELSE e0))
+    [] Family = "collation" ->
+         RangeCollation(tr, O(a), T(a), IF b = 0 THEN <<>> ELSE O(b), IF b = 0 THEN <<>> ELSE T(b), OTable)
     [] Family = "compound" ->
          LET sw == LexLess(T(b), T(a))
          IN  RangeScan(tr, IF sw THEN T(b) ELSE T(a), IF sw THEN T(a) ELSE T(b))
